@@ -584,6 +584,8 @@ var c02Idioms = []string{
 	"a: *{b!: 1} | >1\n",
 }
 
+const c02KnownTail = 5
+
 // c02Program generates one program.
 func c02Program(r *Rng) (string, map[string]bool) {
 	g := &c02G{r: r, feat: map[string]bool{}}
@@ -593,7 +595,9 @@ func c02Program(r *Rng) (string, map[string]bool) {
 	}
 	var b strings.Builder
 	if r.Chance(1, 3) {
-		idiom := Pick(r, c02Idioms)
+		// the last c02KnownTail idioms (a known runaway recursion, ~5 s of CPU each) are run once
+		// per check as part of the fixed prelude and are not drawn again at random
+		idiom := Pick(r, c02Idioms[:len(c02Idioms)-c02KnownTail])
 		g.feat["idiom"] = true
 		for strings.Contains(idiom, "%s") {
 			idiom = strings.Replace(idiom, "%s", g.expr(), 1)
